@@ -114,6 +114,23 @@ theorem unknown_gets_register (hash : ID → Nat) (t : Tbl) (n : Pkt)
       (t, [], .ok { ok := false, host := none, next := [registerReply n.hd], subs := [] }) :=
   talk_unknown hash t n hun he hh
 
+/-- …and the same for an element of a multi-device batch (`Listener.talkSub`): an element naming a
+device nobody registered is answered with `SvRegister` naming that device; no Session is touched,
+whatever shares its hash. -/
+theorem unknown_batch_element_gets_register (hash : ID → Nat) (t : Tbl) (n : Sub) (o : Bool)
+    (hun : ∀ k s, t.get k = some s → s.id ≠ n.dev) (he : idEmpty n.dev = false)
+    (hh : (n.pid == svHello) = false) :
+    talkSub hash false t n o = (t, [], .ok { host := none, key := 0, reply := [registerReply n] }) := by
+  unfold talkSub
+  simp only [he, Bool.or_self, Bool.false_eq_true, ↓reduceIte]
+  split
+  · simp [hh]
+  · have : (n.pid != svHello) = true := by simp [bne, hh]
+    simp [this]
+  · rename_i s hf
+    obtain ⟨hid, hget⟩ := find_own hf
+    exact absurd hid (hun _ s hget)
+
 /-- A hello from a device whose hash slot is held by another device is refused without any
 effect: the registered Session is neither replaced nor touched. -/
 theorem colliding_hello_refused (hash : ID → Nat) (t : Tbl) (n : Pkt) (s : Sess)
